@@ -3,6 +3,7 @@ package main
 import (
 	"fmt"
 	"go/token"
+	"sort"
 	"strings"
 
 	"golang.org/x/tools/go/ssa"
@@ -11,464 +12,903 @@ import (
 func init() {
 	register(&propDef{
 		id: "C30", run: runC30, minOblig: 14,
-		explanation: "Decides the strict-KEX (Terrapin) control structure: (seq reset) in connectionState.readPacket and .writePacket the store seqNum = 0 is reachable exactly when the strictMode argument is true, only after the cipher swap on NEWKEYS, and seqNum is otherwise only incremented (who-may-write over package ssh); (activation) transport.setStrictMode sets the flag only when the read sequence number is 1, and handshakeTransport.enterKeyExchange calls it (checked) exactly when this is the first exchange and the PEER's KEXINIT lists the peer-role marker (kex-strict-s for a client, kex-strict-c for a server) — evaluated over all 16 combinations of {first, isClient, contains-s, contains-c}; sendKexInit adds our marker only when sessionID == nil; (no skipping) transport.readPacket skips a packet exactly when it is non-empty IGNORE/DEBUG and not (strict && !initialKEXDone), readLoop drops IGNORE/DEBUG exactly when not (first exchange && strict) — all cases evaluated; setInitialKEXDone is reachable only after the peer's packet was compared equal to NEWKEYS in the first exchange, and enterKeyExchange returns nil only over that edge; readOnePacket(first) rejects any first packet that is not KEXINIT. NOT decided: that every injected/deleted packet breaks the cryptographic handshake (follows from sequence numbers entering the MAC, C25, plus these clauses).",
-		assumptions: []string{"message type constants msgIgnore/msgDebug/msgNewKeys/msgKexInit as declared in the package"},
+		explanation: "Decides the strict-KEX (Terrapin) control structure by interpretation, independent of how the code is factored into helpers. (seq reset) connectionState.readPacket and .writePacket are interpreted (path walker, helpers of the package interpreted in place, the non-blocking receive of pending key material modelled) for every combination of {strict flag, packet empty/non-empty, packet type, key material pending}: the cipher is applied with the current sequence number and the current keys, the keys are swapped exactly on NEWKEYS with pending key material, and the sequence number afterwards is 0 exactly when the keys were swapped under the strict flag and old+1 otherwise; every caller passes the transport's own strictMode flag; connectionState.seqNum is written only by these two functions and helpers called only from them (who-may-write over package ssh), and only as seqNum+1 or 0. (activation) transport.setStrictMode, interpreted for read sequence numbers {0,1,2,3,2^32-1}, sets the flag and returns nil only for 1; handshakeTransport.enterKeyExchange is interpreted up to the point where no request is possible any more, for all 16 combinations of {first exchange, isClient, peer lists kex-strict-s, peer lists kex-strict-c}: setStrictMode is called (and handshakeTransport.strictMode set) exactly on the first exchange when the PEER's KEXINIT (the record Unmarshal fills from the packet parameter, followed through phis and helpers; membership decided for slices.Contains/slices.Index on the tagged list and, for hand-written loops, by giving both KexAlgos lists concrete two-element content) lists the peer-role marker; a failing setStrictMode aborts the exchange; sendKexInit puts exactly our role's marker into a list while sessionID == nil and none on a re-key (finite-domain evaluation over the function and its helpers). (no skipping) transport.readPacket, interpreted, reads a further packet exactly when the one just read is non-empty IGNORE/DEBUG and not (strict && !initialKEXDone); readLoop delivers a packet to the incoming channel within the iteration exactly when not IGNORE/DEBUG or (first exchange && strict); readOnePacket(first=true) has a non-error return reachable only for KEXINIT — the latter two by finite-domain evaluation in which helper parameters take their arguments' values and helper calls the value their reachable returns agree on; setInitialKEXDone and the nil return of enterKeyExchange are reachable only across the edge on which a packet read from the peer compared equal to NEWKEYS (interprocedural must-cross; a helper all of whose accepting returns lie behind that edge establishes it for its caller), and setInitialKEXDone is unreachable when sessionID != nil. NOT decided: that every injected/deleted packet breaks the cryptographic handshake (follows from sequence numbers entering the MAC, C25, plus these clauses).",
+		assumptions: []string{"message type constants msgIgnore/msgDebug/msgNewKeys/msgKexInit as declared in the package", "struct field names of connectionState/transport/handshakeTransport (seqNum, packetCipher, pendingKeyChange, strictMode, initialKEXDone, sessionID, hostKeys, sentInitMsg, incoming) identify the state; parameters are identified by type and provenance, locals not at all"},
 	})
-	tech("C30", "finite-domain evaluation of flag/packet-type conditions over SSA + must-cross CFG rules + who-may-write table")
+	tech("C30", "abstract interpretation (path walker with helpers interpreted in place) of the sequence-number/strict-mode state machine + interprocedural finite-domain evaluation of flag/packet-type conditions + interprocedural must-cross + who-may-write table")
+}
+
+type c30Consts struct {
+	ignore, debug, newKeys, kexInit int64
 }
 
 func runC30(c *Ctx) {
-	msgIgnore, _ := pkgConstInt(c, "ssh", "msgIgnore")
-	msgDebug, _ := pkgConstInt(c, "ssh", "msgDebug")
-	msgNewKeys, ok1 := pkgConstInt(c, "ssh", "msgNewKeys")
-	msgKexInit, ok2 := pkgConstInt(c, "ssh", "msgKexInit")
-	if !ok1 || !ok2 || msgIgnore == 0 || msgDebug == 0 {
+	var k c30Consts
+	var ok1, ok2 bool
+	k.ignore, _ = pkgConstInt(c, "ssh", "msgIgnore")
+	k.debug, _ = pkgConstInt(c, "ssh", "msgDebug")
+	k.newKeys, ok1 = pkgConstInt(c, "ssh", "msgNewKeys")
+	k.kexInit, ok2 = pkgConstInt(c, "ssh", "msgKexInit")
+	if !ok1 || !ok2 || k.ignore == 0 || k.debug == 0 {
 		c.fail("anchor", "ssh message constants", nil, "msgIgnore/msgDebug/msgNewKeys/msgKexInit not found")
 		return
 	}
-	// ---- (a) sequence number reset
-	for _, name := range []string{"(*connectionState).readPacket", "(*connectionState).writePacket"} {
-		f := c.fn("ssh", name)
+	c30SeqReset(c, k)
+	c30SeqWriters(c)
+	c30SetStrict(c)
+	c30Enter(c, k)
+	c30OwnMarker(c)
+	c30SkipTransport(c, k)
+	c30SkipReadLoop(c, k)
+	c30FirstPacket(c, k)
+}
+
+func c30PacketName(k c30Consts, ln, p0 int64) string {
+	if ln == 0 {
+		return "empty packet"
+	}
+	switch p0 {
+	case k.newKeys:
+		return "NEWKEYS packet"
+	case k.ignore:
+		return "IGNORE packet"
+	case k.debug:
+		return "DEBUG packet"
+	case k.kexInit:
+		return "KEXINIT packet"
+	}
+	return fmt.Sprintf("packet of type %d", p0)
+}
+
+// ---- (a) sequence number reset --------------------------------------------
+
+// c30IsCipherInvoke: an invoke on the value of connectionState.packetCipher
+// (readCipherPacket / writeCipherPacket: first argument is the sequence number).
+func c30IsCipherInvoke(cc *ssa.CallCommon) bool {
+	return cc.IsInvoke() && len(cc.Args) > 0 && isField(cc.Value, "connectionState", "packetCipher")
+}
+
+func c30SeqReset(c *Ctx, k c30Consts) {
+	for _, dir := range []struct {
+		name string
+		read bool
+	}{{"(*connectionState).readPacket", true}, {"(*connectionState).writePacket", false}} {
+		f := c.fn("ssh", dir.name)
 		if f == nil {
 			continue
 		}
-		strict := param(f, "strictMode")
-		var zero *ssa.Store
-		var swaps []*ssa.Store
-		good := true
-		why := ""
-		for _, st := range storesTo(f, "connectionState", "seqNum") {
-			if k, ok := constInt(st.Val); ok && k == 0 {
-				zero = st
-				continue
-			}
-			bo, ok := st.Val.(*ssa.BinOp)
-			if !ok || bo.Op != token.ADD {
-				good, why = false, "seqNum is assigned something other than seqNum+1 or 0"
-				continue
-			}
-			if k, ok := constInt(bo.Y); !ok || k != 1 || !isField(bo.X, "connectionState", "seqNum") {
-				good, why = false, "seqNum is assigned something other than seqNum+1 or 0"
-			}
+		strict := c30BoolParam(f)
+		var pkt *ssa.Parameter
+		if !dir.read {
+			pkt = c30BytesParam(f)
 		}
-		swaps = storesTo(f, "connectionState", "packetCipher")
-		if strict == nil || zero == nil || len(swaps) != 1 {
-			c.fail("C30.seq-reset", name, f, "anchors not found: strictMode parameter, seqNum = 0 store, single cipher swap")
+		if strict == nil || len(f.Params) == 0 || (!dir.read && pkt == nil) {
+			c.fail("C30.seq-reset", dir.name, f, "anchors not found: the strict-mode flag (the single bool parameter) / the packet to write (the single []byte parameter)")
 			continue
 		}
-		for _, v := range []int64{0, 1} {
-			e := newEnv()
-			e.bind(strict, v)
-			e.solve(f)
-			if e.reach[zero.Block()] != (v == 1) {
-				good, why = false, fmt.Sprintf("with strictMode=%d the store seqNum=0 is reachable=%v", v, e.reach[zero.Block()])
-			}
-		}
-		if !precedes(swaps[0], zero) {
-			good, why = false, "seqNum is reset before/without the cipher swap"
-		}
-		// the swap (and hence the reset) happens only for NEWKEYS
-		swapGate := false
-		allInstrs(f, func(in ssa.Instruction) {
-			if bo, ok := in.(*ssa.BinOp); ok && (bo.Op == token.EQL || bo.Op == token.NEQ) {
-				if k, ok := constInt(bo.Y); ok && k == msgNewKeys {
-					y, _ := boolEdges(bo, bo.Op == token.EQL)
-					cut := edgeSet{}
-					cut.addAll(y)
-					if len(y) > 0 && !pathFromEntry(swaps[0], cut) {
-						swapGate = true
-					}
-				}
-			}
-		})
-		if !swapGate {
-			good, why = false, "the cipher swap is reachable for packets other than NEWKEYS"
-		}
-		c.check(good, "C30.seq-reset", name, zero, "seqNum = 0 exactly under strictMode, after the cipher swap, on NEWKEYS only; otherwise only incremented", why)
-	}
-	// who may write seqNum
-	for _, f := range c.funcsOfPkg("ssh") {
-		if n := len(storesTo(f, "connectionState", "seqNum")); n > 0 {
-			nm := fnName(f)
-			c.check(nm == "(*connectionState).readPacket" || nm == "(*connectionState).writePacket", "C30.seq-writers", nm, f, "tabled writer of seqNum", "function writes connectionState.seqNum but is not readPacket/writePacket")
-		}
-	}
-	// ---- (b) setStrictMode
-	if f := c.fn("ssh", "(*transport).setStrictMode"); f != nil {
-		sts := storesTo(f, "transport", "strictMode")
-		bad := ""
-		if len(sts) != 1 {
-			bad = "store of strictMode not found"
-		} else {
-			for _, d := range []int64{0, 1, 2, 3} {
-				e := newEnv()
-				e.bindField(f, "connectionState", "seqNum", d)
-				e.solve(f)
-				if e.reach[sts[0].Block()] != (d == 1) {
-					bad = fmt.Sprintf("read sequence number %d: strict mode enabled=%v", d, e.reach[sts[0].Block()])
-				}
-			}
-			if v, ok := constBool(sts[0].Val); !ok || !v {
-				bad = "strictMode is not set to true"
-			}
-		}
-		c.check(bad == "", "C30.activation-seq", "(*transport).setStrictMode", f, "enabled only when exactly one packet (the peer's KEXINIT) has been read", bad)
-	}
-	c30Enter(c, msgNewKeys)
-	// sendKexInit: marker only on first exchange
-	if f := c.fn("ssh", "(*handshakeTransport).sendKexInit"); f != nil {
-		n := 0
-		okAll := true
-		allInstrs(f, func(in ssa.Instruction) {
-			call, ok := in.(*ssa.Call)
-			if !ok || calleeName(&call.Call) != "builtin:append" || len(call.Call.Args) < 2 {
-				return
-			}
-			// appended constant string kex-strict-*
-			found := ""
-			if sl, ok := call.Call.Args[1].(*ssa.Slice); ok {
-				if al, ok := sl.X.(*ssa.Alloc); ok {
-					for _, r := range *al.Referrers() {
-						if ia, ok := r.(*ssa.IndexAddr); ok {
-							for _, rr := range *ia.Referrers() {
-								if st, ok := rr.(*ssa.Store); ok {
-									if s, ok := constString(st.Val); ok && strings.HasPrefix(s, "kex-strict-") {
-										found = s
-									}
-								}
-							}
-						}
-					}
-				}
-			}
-			if found == "" {
-				return
-			}
-			n++
-			e := newEnv()
-			e.bindNilTests(f, func(v ssa.Value) bool { return isField(v, "handshakeTransport", "sessionID") }, false)
-			e.bindNilTests(f, func(v ssa.Value) bool { return isField(v, "handshakeTransport", "sentInitMsg") }, true)
-			e.solve(f)
-			if e.reach[call.Block()] {
-				okAll = false
-			}
-		})
-		c.check(n == 2 && okAll, "C30.own-marker", "(*handshakeTransport).sendKexInit", f, "our KEXINIT carries the kex-strict marker only while sessionID == nil", fmt.Sprintf("kex-strict marker appends found: %d (want 2); reachable on a re-key: %v", n, !okAll))
-	}
-	// ---- (c) transport.readPacket skipping
-	if f := c.fn("ssh", "(*transport).readPacket"); f != nil {
-		back := backEdges(f)
-		var call *ssa.Call
-		for _, ci := range callsNamed(f, "(*ssh.connectionState).readPacket") {
-			call = ci.(*ssa.Call)
-		}
-		if call == nil {
-			c.fail("C30.skip-transport", "(*transport).readPacket", f, "inner readPacket call not found")
-		} else {
-			var pv ssa.Value
-			for _, v := range resultN(call, 0) {
-				pv = v
-			}
-			bad := ""
-			n := 0
+		recv := f.Params[0].Name()
+		const seq0 = 7
+		bad, n := "", 0
+		for sv := int64(0); sv < 2 && bad == ""; sv++ {
 			for _, ln := range []int64{0, 1} {
-				for strict := int64(0); strict < 2; strict++ {
-					for done := int64(0); done < 2; done++ {
-						for _, p0 := range []int64{msgIgnore, msgDebug, msgNewKeys, 1, 3, 5, 90} {
-							e := newEnv()
-							e.bindLen(f, pv, ln)
-							e.bindField(f, "transport", "strictMode", strict)
-							e.bindField(f, "transport", "initialKEXDone", done)
-							e.bindIndexLoads(f, func(b ssa.Value) bool { return b == pv }, 0, p0)
-							for _, ev := range errResult(call) {
-								e.bindNilTests(f, func(v ssa.Value) bool { return v == ev }, true)
+				for _, p0 := range []int64{k.newKeys, 1, k.ignore, k.debug, k.kexInit, 90} {
+					if ln == 0 && p0 != k.newKeys {
+						continue
+					}
+					// pending key material no/yes; case 2: the cipher itself fails
+					// (nothing read; on writing the packet is the one given)
+					for pc := int64(0); pc < 3; pc++ {
+						pending, cerr := pc, int64(0)
+						if pc == 2 {
+							if p0 != k.newKeys {
+								continue
 							}
-							cut := e.cuts(f)
-							r := reachAfter(call, cut)
-							skipped := false
-							for be := range back {
-								if r[be.from] && !cut[be] {
-									// back edge source reachable: but the edge itself must be feasible
-									skipped = true
+							pending, cerr = 1, 1
+						}
+						tr := newC30Trace()
+						w := c30Walker(f, tr, map[string]bool{"Unmarshal": true}, func(w *pathWalker, g *ssa.Function) { c30ModelSelects(w, g, pending == 1) })
+						w.state[recv+".seqNum"] = seq0
+						w.state[recv+".packetCipher"] = 1
+						w.env.bind(strict, sv)
+						if pkt != nil {
+							w.env.bind(pkt, ln)
+							w.off[pkt] = p0
+						}
+						w.onCall = func(w *pathWalker, ci ssa.CallInstruction) string {
+							cc := ci.Common()
+							if !c30IsCipherInvoke(cc) {
+								return ""
+							}
+							ev := "io"
+							if s, ok := w.env.eval(cc.Args[0]); ok {
+								ev += fmt.Sprintf(":seq=%d", s)
+							} else {
+								ev += ":seq=?"
+							}
+							if s, ok := w.env.eval(cc.Value); ok {
+								ev += fmt.Sprintf(":cipher=%d", s)
+							} else {
+								ev += ":cipher=?"
+							}
+							if call, ok := ci.(*ssa.Call); ok {
+								if call.Call.Signature().Results().Len() == 2 {
+									w.tuple[call] = []optInt{{ln * (1 - cerr), true}, {cerr, true}}
+								} else {
+									w.env.bind(call, cerr)
 								}
 							}
-							want := ln > 0 && !(strict == 1 && done == 0) && (p0 == msgIgnore || p0 == msgDebug)
-							n++
-							if skipped != want {
-								bad = fmt.Sprintf("len=%d strict=%d initialKEXDone=%d type=%d: packet skipped=%v, specification %v", ln, strict, done, p0, skipped, want)
+							return ev
+						}
+						w.onExtract = func(w *pathWalker, ex *ssa.Extract) {
+							if call, ok := ex.Tuple.(*ssa.Call); ok && ex.Index == 0 && c30IsCipherInvoke(&call.Call) {
+								w.off[ex] = p0
 							}
 						}
-					}
-				}
-			}
-			c.check(bad == "", "C30.skip-transport", "(*transport).readPacket", call, fmt.Sprintf("IGNORE/DEBUG skipping matches the specification on %d cases", n), bad)
-		}
-	}
-	// readLoop
-	if f := c.fn("ssh", "(*handshakeTransport).readLoop"); f != nil {
-		back := backEdges(f)
-		var call *ssa.Call
-		for _, ci := range callsNamed(f, "(*ssh.handshakeTransport).readOnePacket") {
-			call = ci.(*ssa.Call)
-		}
-		var send *ssa.Send
-		allInstrs(f, func(in ssa.Instruction) {
-			if s, ok := in.(*ssa.Send); ok {
-				send = s
-			}
-		})
-		if call == nil || send == nil {
-			c.fail("C30.skip-readloop", "(*handshakeTransport).readLoop", f, "readOnePacket call or delivery send not found")
-		} else {
-			var pv ssa.Value
-			for _, v := range resultN(call, 0) {
-				pv = v
-			}
-			bad := ""
-			n := 0
-			for first := int64(0); first < 2; first++ {
-				for strict := int64(0); strict < 2; strict++ {
-					for _, p0 := range []int64{msgIgnore, msgDebug, msgNewKeys, 1, 3, 5, 90} {
-						e := newEnv()
-						e.bindField(f, "handshakeTransport", "strictMode", strict)
-						e.bindNilTests(f, func(v ssa.Value) bool { return isField(v, "handshakeTransport", "sessionID") }, first == 1)
-						e.bindIndexLoads(f, func(b ssa.Value) bool { return b == pv }, 0, p0)
-						for _, ev := range errResult(call) {
-							e.bindNilTests(f, func(v ssa.Value) bool { return v == ev }, true)
-						}
-						cut := e.cuts(f)
-						r := reachAfter(call, cut)
-						delivered := r[send.Block()]
-						want := (first == 1 && strict == 1) || !(p0 == msgIgnore || p0 == msgDebug)
+						end := w.walk(f.Blocks[0], nil)
 						n++
-						if delivered != want {
-							bad = fmt.Sprintf("first-kex=%d strict=%d type=%d: delivered to the kex/application=%v, specification %v", first, strict, p0, delivered, want)
+						seq := w.state[recv+".seqNum"]
+						ciph := w.state[recv+".packetCipher"]
+						isNK := ln > 0 && p0 == k.newKeys
+						wantSwap := isNK && pending == 1
+						wantSeq := int64(seq0 + 1)
+						if wantSwap && sv == 1 {
+							wantSeq = 0
+						}
+						desc := fmt.Sprintf("strictMode=%d, %s, key material pending=%d", sv, c30PacketName(k, ln, p0), pending)
+						io, _ := c30HasEvent(w, "io")
+						switch {
+						case end != "return" && end != "panic":
+							bad = desc + ": evaluation ended " + end + " (" + w.why + ")"
+						case end == "panic" && !(isNK && pending == 0):
+							bad = desc + ": panics"
+						case w.oob:
+							bad = desc + ": indexes the packet out of range"
+						case io != fmt.Sprintf("io:seq=%d:cipher=1", seq0):
+							bad = desc + ": the cipher is not applied with the current sequence number and the current keys (observed " + io + ")"
+						case cerr == 1:
+							// a failed cipher operation ends the connection; the counter
+							// must not restart unless new keys were installed in strict mode
+							if seq != seq0 && seq != seq0+1 && !(seq == 0 && ciph == 2 && sv == 1) {
+								bad = desc + fmt.Sprintf(", cipher error: sequence number afterwards is %d (before: %d)", seq, seq0)
+							}
+						case (ciph == 2) != wantSwap:
+							bad = desc + fmt.Sprintf(": keys swapped=%v, specification %v", ciph == 2, wantSwap)
+						case isNK && pending == 0:
+							// NEWKEYS without key material must not be accepted
+							if end == "return" {
+								if e, ok := c30ErrVal(w, f.Signature.Results().Len()-1); !ok || e != 1 {
+									bad = desc + ": NEWKEYS without key material is not rejected"
+								}
+							}
+						case seq != wantSeq:
+							bad = desc + fmt.Sprintf(": sequence number after the packet is %d (before: %d), specification %d", seq, seq0, wantSeq)
+						}
+						if bad != "" {
+							break
 						}
 					}
 				}
 			}
-			_ = back
-			c.check(bad == "", "C30.skip-readloop", "(*handshakeTransport).readLoop", call, fmt.Sprintf("IGNORE/DEBUG dropping matches the specification on %d cases", n), bad)
 		}
-	}
-	// ---- (d) first packet must be KEXINIT
-	if f := c.fn("ssh", "(*handshakeTransport).readOnePacket"); f != nil {
-		var call *ssa.Call
-		for _, ci := range calls(f, func(n string) bool { return strings.HasSuffix(n, ".readPacket") }) {
-			if cc, ok := ci.(*ssa.Call); ok && call == nil {
-				call = cc
-			}
-		}
-		first := param(f, "first")
-		if call == nil || first == nil {
-			c.fail("C30.first-packet", "(*handshakeTransport).readOnePacket", f, "anchors not found")
-		} else {
-			var pv ssa.Value
-			for _, v := range resultN(call, 0) {
-				pv = v
-			}
-			bad := ""
-			for _, p0 := range []int64{msgIgnore, msgDebug, msgNewKeys, 1, 5, 50, msgKexInit} {
-				e := newEnv()
-				e.bind(first, 1)
-				e.bindIndexLoads(f, func(b ssa.Value) bool { return b == pv }, 0, p0)
-				for _, ev := range errResult(call) {
-					e.bindNilTests(f, func(v ssa.Value) bool { return v == ev }, true)
-				}
-				e.solve(f)
-				okRet := false
-				for _, r := range acceptReturns(f, 1) {
-					if e.reach[r.Block()] {
-						okRet = true
-					}
-				}
-				if okRet != (p0 == msgKexInit) {
-					bad = fmt.Sprintf("first packet of type %d: non-error return reachable=%v", p0, okRet)
-				}
-			}
-			c.check(bad == "", "C30.first-packet", "(*handshakeTransport).readOnePacket", call, "the first packet is accepted only if it is KEXINIT", bad)
-		}
+		c.check(bad == "", "C30.seq-reset", dir.name, f, fmt.Sprintf("interpreted on %d cases: keys swapped exactly on NEWKEYS with pending key material; sequence number afterwards 0 exactly when swapped under the strict flag, old+1 otherwise", n), bad)
+		c30StrictArg(c, f, dir.name, c30ParamIndex(f, strict))
 	}
 }
 
-func c30Enter(c *Ctx, msgNewKeys int64) {
+// c30StrictArg: every caller of connectionState.readPacket / writePacket passes
+// the transport's own strictMode flag (decided by interpreting the caller with
+// the flag false and true and evaluating the argument at the call).
+func c30StrictArg(c *Ctx, f *ssa.Function, name string, idx int) {
+	bad, n := "", 0
+	for _, cs := range c.callersOf(f) {
+		caller := cs.Parent()
+		if caller == nil || len(caller.Params) == 0 || len(caller.Blocks) == 0 {
+			bad = "called from " + fnName(caller) + ", which has no transport receiver"
+			continue
+		}
+		for v := int64(0); v < 2; v++ {
+			tr := newC30Trace()
+			w := c30Walker(caller, tr, map[string]bool{f.Name(): true}, nil)
+			w.state[caller.Params[0].Name()+".strictMode"] = v
+			w.onCall = func(w *pathWalker, ci ssa.CallInstruction) string {
+				cc := ci.Common()
+				if cc.StaticCallee() != f || idx >= len(cc.Args) {
+					return ""
+				}
+				if a, ok := w.env.eval(cc.Args[idx]); ok {
+					return fmt.Sprintf("strictarg=%d", a)
+				}
+				return "strictarg=?"
+			}
+			w.walk(caller.Blocks[0], nil)
+			n++
+			ev, found := c30HasEvent(w, "strictarg=")
+			switch {
+			case !found:
+				bad = fmt.Sprintf("%s with strictMode=%d: the call was not reached by the evaluation", fnName(caller), v)
+			case ev != fmt.Sprintf("strictarg=%d", v):
+				bad = fmt.Sprintf("%s with transport.strictMode=%d passes strict flag %s", fnName(caller), v, strings.TrimPrefix(ev, "strictarg="))
+			}
+		}
+	}
+	if n == 0 && bad == "" {
+		bad = "no caller found"
+	}
+	c.check(bad == "", "C30.seq-reset", "strict flag passed to "+name, f, "every caller passes its transport's strictMode flag", bad)
+}
+
+// c30SeqWriters: who may write connectionState.seqNum, and what.
+func c30SeqWriters(c *Ctx) {
+	rd := c.fnOpt("ssh", "(*connectionState).readPacket")
+	wr := c.fnOpt("ssh", "(*connectionState).writePacket")
+	allowed := map[*ssa.Function]bool{}
+	for _, r := range []*ssa.Function{rd, wr} {
+		if r != nil {
+			for _, g := range deepFuncs(r) {
+				allowed[g] = true
+			}
+		}
+	}
+	for _, f := range c.funcsOfPkg("ssh") {
+		sts := storesTo(f, "connectionState", "seqNum")
+		if len(sts) == 0 {
+			continue
+		}
+		nm := fnName(f)
+		fresh := true
+		bad := ""
+		// the value written, evaluated with the old sequence number = 7, is 8 or 0
+		// (whatever the expression looks like)
+		e := newEnv()
+		e.bindField(f, "connectionState", "seqNum", 7)
+		e.solve(f)
+		for _, st := range sts {
+			n, isN := e.eval(st.Val)
+			_, isAlloc := st.Addr.(*ssa.FieldAddr).X.(*ssa.Alloc)
+			if k, isK := constInt(st.Val); !(isAlloc && isK && k == 0) {
+				fresh = false
+			}
+			if !isN || (n != 8 && n != 0) {
+				bad = "seqNum is assigned something other than seqNum+1 or 0"
+			}
+		}
+		if fresh {
+			c.ok("C30.seq-writers", nm, f, "initialises the sequence number of a freshly allocated connectionState with 0")
+			continue
+		}
+		switch {
+		case !allowed[f]:
+			bad = "function writes connectionState.seqNum but is not readPacket/writePacket or a helper of theirs"
+		case f != rd && f != wr:
+			for _, cs := range c.callersOf(f) {
+				if !allowed[cs.Parent()] {
+					bad = "helper writes connectionState.seqNum and is also called from " + fnName(cs.Parent())
+				}
+			}
+		}
+		c.check(bad == "", "C30.seq-writers", nm, f, "writer of seqNum inside readPacket/writePacket (increment or reset to 0 only)", bad)
+	}
+}
+
+// ---- (b) activation -------------------------------------------------------
+
+func c30SetStrict(c *Ctx) {
+	f := c.fn("ssh", "(*transport).setStrictMode")
+	if f == nil || len(f.Params) == 0 {
+		return
+	}
+	recv := f.Params[0].Name()
+	bad := ""
+	for _, d := range []int64{0, 1, 2, 3, 0xFFFFFFFF} {
+		tr := newC30Trace()
+		w := c30Walker(f, tr, nil, nil)
+		w.state[recv+".reader.seqNum"] = d
+		w.state[recv+".strictMode"] = 0
+		end := w.walk(f.Blocks[0], nil)
+		flag := w.state[recv+".strictMode"]
+		e, eok := c30ErrVal(w, 0)
+		switch {
+		case bad != "":
+			// keep the first failing case
+		case end != "return":
+			bad = fmt.Sprintf("read sequence number %d: evaluation ended %s (%s)", d, end, w.why)
+		case (flag == 1) != (d == 1):
+			bad = fmt.Sprintf("read sequence number %d: strict mode enabled=%v", d, flag == 1)
+		case !eok || (e == 0) != (d == 1):
+			bad = fmt.Sprintf("read sequence number %d: strict mode enabled=%v but the returned error is nil=%v", d, flag == 1, eok && e == 0)
+		}
+	}
+	c.check(bad == "", "C30.activation-seq", "(*transport).setStrictMode", f, "enabled (and nil returned) only when exactly one packet (the peer's KEXINIT) has been read", bad)
+}
+
+func c30Enter(c *Ctx, k c30Consts) {
 	f := c.fn("ssh", "(*handshakeTransport).enterKeyExchange")
 	if f == nil {
 		return
 	}
-	// anchors
-	var setStrict, setDone *ssa.Call
-	for _, ci := range calls(f, func(n string) bool { return strings.HasSuffix(n, ".setStrictMode") }) {
-		setStrict, _ = ci.(*ssa.Call)
+	const rule = "C30.activation"
+	const cons = "(*handshakeTransport).enterKeyExchange"
+	isSetStrict := func(in ssa.Instruction) bool {
+		cc := callCommon(in)
+		return cc != nil && strings.HasSuffix(calleeName(cc), ".setStrictMode")
 	}
-	for _, ci := range calls(f, func(n string) bool { return strings.HasSuffix(n, ".setInitialKEXDone") }) {
-		setDone, _ = ci.(*ssa.Call)
+	isSetDone := func(in ssa.Instruction) bool {
+		cc := callCommon(in)
+		return cc != nil && strings.HasSuffix(calleeName(cc), ".setInitialKEXDone")
 	}
-	if setStrict == nil || setDone == nil {
-		c.fail("C30.activation", "(*handshakeTransport).enterKeyExchange", f, "setStrictMode / setInitialKEXDone calls not found")
-		return
-	}
-	// the peer's KEXINIT: the alloc that Unmarshal fills
-	var otherInit ssa.Value
-	for _, ci := range callsNamed(f, "ssh.Unmarshal") {
-		if mi, ok := ci.Common().Args[1].(*ssa.MakeInterface); ok {
-			otherInit = mi.X
+	var setStrict, setDone []ssa.Instruction
+	deepInstrs(f, func(in ssa.Instruction) {
+		if isSetStrict(in) {
+			setStrict = append(setStrict, in)
 		}
-	}
-	// isClient: BinOp len(t.hostKeys) == 0
-	var isClient *ssa.BinOp
-	allInstrs(f, func(in ssa.Instruction) {
-		if bo, ok := in.(*ssa.BinOp); ok && bo.Op == token.EQL && isClient == nil {
-			if call, ok := bo.X.(*ssa.Call); ok && calleeName(&call.Call) == "builtin:len" && isField(call.Call.Args[0], "handshakeTransport", "hostKeys") {
-				isClient = bo
-			}
+		if isSetDone(in) {
+			setDone = append(setDone, in)
 		}
 	})
-	type cont struct {
-		call   *ssa.Call
-		marker string
-	}
-	var conts []cont
-	for _, ci := range calls(f, nameIs("slices.Contains")) {
-		call := ci.(*ssa.Call)
-		if s, ok := constString(call.Call.Args[1]); ok && strings.HasPrefix(s, "kex-strict-") {
-			conts = append(conts, cont{call, s})
-		}
-	}
-	if otherInit == nil || isClient == nil || len(conts) != 2 {
-		c.fail("C30.activation", "(*handshakeTransport).enterKeyExchange", f, fmt.Sprintf("anchors not found: peer KEXINIT=%v isClient=%v strict-marker tests=%d", otherInit != nil, isClient != nil, len(conts)))
+	pktParam := c30BytesParam(f)
+	if len(setStrict) == 0 || len(setDone) == 0 || pktParam == nil || len(f.Params) == 0 {
+		c.fail(rule, cons, f, fmt.Sprintf("anchors not found: setStrictMode calls=%d setInitialKEXDone calls=%d (in the function or its helpers), peer KEXINIT packet parameter=%v", len(setStrict), len(setDone), pktParam != nil))
 		return
 	}
-	// which KEXINIT does each Contains look at, per role
-	resolve := func(v ssa.Value, ic int64) ssa.Value {
-		// v is a load of FieldAddr(X, KexAlgos); X may be a phi of otherInit / sentInitMsg
-		_, fld, base, ok := fieldOf(v)
-		if !ok || fld != "KexAlgos" {
-			return nil
-		}
-		if p, ok := base.(*ssa.Phi); ok {
-			e := newEnv()
-			e.bind(isClient, ic)
-			e.solve(f)
-			var got ssa.Value
-			for i, ed := range p.Edges {
-				pred := p.Block().Preds[i]
-				if e.reach[pred] && e.edgeFeasible(pred, p.Block()) {
-					if got != nil && got != ed {
-						return nil
+	recv := f.Params[0].Name()
+	// one interpretation of the function up to the point where strict mode can
+	// no longer be requested
+	type outcome struct {
+		requested bool
+		flag      int64
+		end       string
+		errv      int64
+		errOK     bool
+		why       string
+		lists     string
+	}
+	run := func(first, ic, hasS, hasC int64, failStrict bool) outcome {
+		tr := newC30Trace()
+		ids := map[string]int64{}
+		w := c30Walker(f, tr, map[string]bool{"Unmarshal": true, "findAgreedAlgorithms": true}, func(w *pathWalker, g *ssa.Function) { c30BindStrings(w.env, g, ids) })
+		// the two KEXINIT algorithm lists have concrete content, so that a
+		// hand-written membership loop evaluates like slices.Contains: the
+		// peer's list is [kex-strict-s or other, kex-strict-c or other], ours
+		// (worst case) lists both markers
+		packetByte := w.onLoad
+		w.onLoad = func(w *pathWalker, u *ssa.UnOp) (int64, bool) {
+			if n, ok := packetByte(w, u); ok {
+				return n, true
+			}
+			if ia, ok := u.X.(*ssa.IndexAddr); ok {
+				list := c30Tag(w, ia.X)
+				i, iok := w.env.eval(ia.Index)
+				if !iok || (i != 0 && i != 1) {
+					return 0, false
+				}
+				marker, has := int64(c30StrS), hasS
+				if i == 1 {
+					marker, has = c30StrC, hasC
+				}
+				switch list {
+				case "own.KexAlgos":
+					return marker, true
+				case "peer.KexAlgos":
+					if has == 1 {
+						return marker, true
 					}
-					got = ed
+					return c30StrOther + i, true
+				}
+				return 0, false
+			}
+			switch c30Tag(w, u) {
+			case "peer.KexAlgos", "own.KexAlgos":
+				return 2, true // the list, by its length
+			}
+			return 0, false
+		}
+		w.state[recv+".hostKeys"] = 1 - ic // a client has no host keys
+		w.state[recv+".sessionID"] = 1 - first
+		w.state[recv+".strictMode"] = 0
+		w.cls[pktParam] = "peerpacket"
+		w.onCall = func(w *pathWalker, ci ssa.CallInstruction) string {
+			cc := ci.Common()
+			name := short(calleeName(cc))
+			switch {
+			case strings.HasSuffix(name, "ssh.Unmarshal") && len(cc.Args) == 2:
+				if c30Tag(w, cc.Args[0]) == "peerpacket" {
+					w.cls[stripConv(cc.Args[1])] = "peer"
+				}
+			case (strings.HasPrefix(name, "slices.Contains") || strings.HasPrefix(name, "slices.Index")) && len(cc.Args) == 2:
+				list, marker := c30Tag(w, cc.Args[0]), c30Tag(w, cc.Args[1])
+				if !strings.HasPrefix(marker, "str:kex-strict-") {
+					return ""
+				}
+				val := int64(-1)
+				switch list {
+				case "peer.KexAlgos":
+					if strings.Contains(marker, "kex-strict-s") {
+						val = hasS
+					} else {
+						val = hasC
+					}
+				case "own.KexAlgos":
+					val = 1 // our own KEXINIT lists our marker on the first exchange: worst case
+				}
+				if v, ok := ci.(*ssa.Call); ok && val >= 0 {
+					if strings.HasPrefix(name, "slices.Index") {
+						val-- // index 0 or -1
+					}
+					w.env.bind(v, val)
+				}
+				return "lists(" + list + "," + strings.TrimPrefix(marker, "str:") + ")"
+			case isSetStrict(ci):
+				flag, _ := c30StateSuffix(w, ".strictMode")
+				if v, ok := ci.(*ssa.Call); ok {
+					if failStrict {
+						w.env.bind(v, 1)
+					} else {
+						w.env.bind(v, 0)
+					}
+				}
+				return fmt.Sprintf("setStrict:flag=%d", flag)
+			}
+			return ""
+		}
+		o := outcome{}
+		o.end = w.walk(f.Blocks[0], nil)
+		o.why = w.why
+		_, o.requested = c30HasEvent(w, "setStrict:")
+		o.flag = w.state[recv+".strictMode"]
+		if ev, ok := c30HasEvent(w, "setStrict:"); ok && ev != "setStrict:flag=1" {
+			o.flag = 0
+		}
+		for _, ev := range c30Events(w) {
+			if strings.HasPrefix(ev, "lists(") {
+				o.lists += " " + ev
+			}
+		}
+		if o.end == "return" {
+			o.errv, o.errOK = c30ErrVal(w, 0)
+		}
+		if o.end != "return" && o.end != "panic" {
+			// an unfinished evaluation is conclusive when it stopped at a branch
+			// from which no setStrictMode call can be reached any more
+			vis := tr.visited(w)
+			var last *ssa.BasicBlock
+			for _, b := range vis {
+				if b.Parent() == f {
+					last = b
 				}
 			}
-			return got
+			conclusive := last != nil && strings.HasPrefix(w.why, "branch condition")
+			if conclusive {
+				for _, s := range last.Succs {
+					if deepReachFrom(f, s, nil, isSetStrict) != nil {
+						conclusive = false
+					}
+				}
+			}
+			if conclusive {
+				o.end = "past"
+			}
 		}
-		return base
+		return o
 	}
-	bad := ""
+	bad, badFlag := "", ""
 	n := 0
 	for first := int64(0); first < 2; first++ {
 		for ic := int64(0); ic < 2; ic++ {
 			for hasS := int64(0); hasS < 2; hasS++ {
 				for hasC := int64(0); hasC < 2; hasC++ {
-					e := newEnv()
-					e.bind(isClient, ic)
-					e.bindNilTests(f, func(v ssa.Value) bool { return isField(v, "handshakeTransport", "sessionID") }, first == 1)
-					peerListsRole := int64(0)
-					for _, ct := range conts {
-						src := resolve(ct.call.Call.Args[0], ic)
-						isPeer := src == otherInit
-						val := int64(0)
-						// value of Contains: does that KEXINIT list that marker? we model only the peer's lists
-						if isPeer {
-							if strings.Contains(ct.marker, "-s-") {
-								val = hasS
-							} else {
-								val = hasC
-							}
-						} else {
-							val = 1 // our own KEXINIT always lists our marker on the first exchange: worst case
-						}
-						e.bind(ct.call, val)
-					}
+					o := run(first, ic, hasS, hasC, false)
+					n++
+					peerListsRole := hasC
 					if ic == 1 {
 						peerListsRole = hasS
-					} else {
-						peerListsRole = hasC
 					}
-					// findAgreedAlgorithms succeeds
-					for _, ci := range callsNamed(f, "ssh.findAgreedAlgorithms") {
-						for _, ev := range errResult(ci.(*ssa.Call)) {
-							e.bindNilTests(f, func(v ssa.Value) bool { return v == ev }, true)
-						}
-					}
-					e.solve(f)
-					got := e.reach[setStrict.Block()]
 					want := first == 1 && peerListsRole == 1
-					n++
-					if got != want {
-						bad = fmt.Sprintf("first=%d isClient=%d peer lists kex-strict-s=%d kex-strict-c=%d: strict mode requested=%v, specification %v", first, ic, hasS, hasC, got, want)
+					desc := fmt.Sprintf("first=%d isClient=%d peer lists kex-strict-s=%d kex-strict-c=%d", first, ic, hasS, hasC)
+					switch {
+					case o.end == "undecided" || o.end == "stop":
+						bad = desc + ": evaluation ended undecided before the strict-mode decision (" + o.why + ")"
+					case o.requested != want:
+						bad = fmt.Sprintf("%s: strict mode requested=%v, specification %v (consulted:%s)", desc, o.requested, want, o.lists)
+					}
+					if (o.flag == 1) != o.requested {
+						badFlag = fmt.Sprintf("%s: transport strict mode requested=%v but handshakeTransport.strictMode=%d", desc, o.requested, o.flag)
 					}
 				}
 			}
 		}
 	}
-	c.check(bad == "", "C30.activation", "(*handshakeTransport).enterKeyExchange", setStrict, fmt.Sprintf("strict mode is requested exactly on the first exchange when the peer's KEXINIT lists the peer-role marker (%d cases)", n), bad)
-	// setStrictMode's error is checked
-	yes, no := errSuccessEdges(setStrict)
-	retOnFail := len(no) > 0
-	for _, e := range no {
-		if _, ok := e.to().Instrs[len(e.to().Instrs)-1].(*ssa.Return); !ok {
-			retOnFail = false
+	c.check(bad == "", rule, cons, setStrict[0], fmt.Sprintf("strict mode is requested exactly on the first exchange when the peer's KEXINIT lists the peer-role marker (%d cases interpreted)", n), bad)
+	// setStrictMode's error is fatal
+	badFatal := ""
+	for ic := int64(0); ic < 2; ic++ {
+		o := run(1, ic, 1, 1, true)
+		switch {
+		case !o.requested:
+			badFatal = fmt.Sprintf("isClient=%d: setStrictMode is not called although the peer lists the marker", ic)
+		case o.end != "return" || !o.errOK || o.errv != 1:
+			badFatal = "the error of setStrictMode is ignored: the key exchange goes on after a failed setStrictMode"
 		}
 	}
-	c.check(len(yes) > 0 && retOnFail, "C30.activation", "setStrictMode error is fatal", setStrict, "a failed setStrictMode aborts the key exchange", "the error of setStrictMode is ignored")
-	// also the handshakeTransport's own strictMode flag is set together with the transport's
-	hs := storesTo(f, "handshakeTransport", "strictMode")
-	c.check(len(hs) == 1 && hs[0].Block() == setStrict.Block() || (len(hs) == 1 && hs[0].Block().Dominates(setStrict.Block())), "C30.activation", "handshake strictMode flag", f, "set on the same path as the transport's flag", "handshakeTransport.strictMode is not set together with transport strict mode")
+	c.check(badFatal == "", rule, "setStrictMode error is fatal", setStrict[0], "a failed setStrictMode aborts the key exchange with an error", badFatal)
+	c.check(badFlag == "", rule, "handshake strictMode flag", f, "handshakeTransport.strictMode is set exactly when (and before) the transport's strict mode is requested", badFlag)
 
-	// NEWKEYS gate: return nil and setInitialKEXDone only after packet[0] == msgNewKeys on the last read
-	var nk []edge
-	allInstrs(f, func(in ssa.Instruction) {
-		bo, ok := in.(*ssa.BinOp)
-		if !ok || (bo.Op != token.EQL && bo.Op != token.NEQ) {
-			return
+	// ---- NEWKEYS gate: nil return and setInitialKEXDone only after a packet
+	// read from the peer compared equal to msgNewKeys
+	funcs := deepFuncs(f)
+	var seeds []ssa.Value
+	for _, ci := range deepCalls(f, func(n string) bool { return strings.HasSuffix(n, ".readPacket") }) {
+		if call, ok := ci.(*ssa.Call); ok {
+			seeds = append(seeds, resultN(call, 0)...)
 		}
-		k, ok := constInt(bo.Y)
-		if !ok || k != msgNewKeys {
-			return
+	}
+	pkt := c30Flow(funcs, seeds)
+	var byteSeeds []ssa.Value
+	deepInstrs(f, func(in ssa.Instruction) {
+		if v, ok := in.(ssa.Value); ok && c30IsLoadOfIndex0(v, pkt) {
+			byteSeeds = append(byteSeeds, v)
 		}
-		// operand: load of index 0 of a readPacket result
-		u, ok := bo.X.(*ssa.UnOp)
-		if !ok {
-			return
-		}
-		ia, ok := u.X.(*ssa.IndexAddr)
-		if !ok {
-			return
-		}
-		ex, ok := ia.X.(*ssa.Extract)
-		if !ok {
-			return
-		}
-		if call, ok := ex.Tuple.(*ssa.Call); !ok || !strings.HasSuffix(calleeName(&call.Call), ".readPacket") {
-			return
-		}
-		y, _ := boolEdges(bo, bo.Op == token.EQL)
-		nk = append(nk, y...)
 	})
-	c.mustCross("C30.newkeys-gate", "enterKeyExchange success return", f, acceptReturns(f, 0), nk, "the peer's next packet == NEWKEYS")
-	c.mustCross("C30.newkeys-gate", "setInitialKEXDone after peer NEWKEYS", f, []ssa.Instruction{setDone}, nk, "the peer's next packet == NEWKEYS")
-	// only in the first exchange: firstKeyExchange := t.sessionID == nil evaluated before sessionID is assigned
-	e := newEnv()
-	allInstrs(f, func(in ssa.Instruction) {
-		if bo, ok := in.(*ssa.BinOp); ok && (bo.Op == token.EQL || bo.Op == token.NEQ) && isNilConst(bo.Y) && isField(bo.X, "handshakeTransport", "sessionID") {
-			if bo.Op == token.EQL {
-				e.bind(bo, 0)
-			} else {
-				e.bind(bo, 1)
+	typeByte := c30Flow(funcs, byteSeeds)
+	isGateCmp := func(v ssa.Value) (*ssa.BinOp, bool) {
+		bo, ok := v.(*ssa.BinOp)
+		if !ok || (bo.Op != token.EQL && bo.Op != token.NEQ) {
+			return nil, false
+		}
+		x, y := bo.X, bo.Y
+		if kk, ok := constInt(x); ok && kk == k.newKeys {
+			x, y = y, x
+		}
+		if kk, ok := constInt(y); !ok || kk != k.newKeys {
+			return nil, false
+		}
+		if cv, ok := x.(*ssa.Convert); ok {
+			x = cv.X
+		}
+		return bo, typeByte[x]
+	}
+	var nk []edge
+	deepInstrs(f, func(in ssa.Instruction) {
+		if v, ok := in.(ssa.Value); ok {
+			if bo, ok := isGateCmp(v); ok {
+				y, _ := boolEdges(bo, bo.Op == token.EQL)
+				nk = append(nk, y...)
 			}
 		}
 	})
-	e.solve(f)
-	c.check(!e.reach[setDone.Block()], "C30.newkeys-gate", "setInitialKEXDone only in the first exchange", setDone, "unreachable when sessionID != nil", "setInitialKEXDone is reachable during a re-key")
+	// helpers that establish the gate for their caller: every accepting return
+	// (nil error / true) lies behind the gate, or returns the comparison itself
+	established := map[*ssa.Function]bool{}
+	accepting := func(h *ssa.Function) (rets []ssa.Instruction, last int, kind predKind, ok bool) {
+		res := h.Signature.Results()
+		last = res.Len() - 1
+		if last < 0 {
+			return nil, 0, 0, false
+		}
+		switch {
+		case res.At(last).Type().String() == "error":
+			kind = isNil
+			rets = acceptReturns(h, last)
+		case res.At(last).Type().Underlying().String() == "bool":
+			kind = isTrue
+			rets = valueReturns(h, last)
+		default:
+			return nil, 0, 0, false
+		}
+		var out []ssa.Instruction
+		for _, in := range rets {
+			r := in.(*ssa.Return)
+			v := retVal(r, last)
+			if bo, isG := isGateCmp(v); isG && bo.Op == token.EQL {
+				continue
+			}
+			if call, isC := v.(*ssa.Call); isC {
+				if g := call.Call.StaticCallee(); g != nil && established[g] {
+					continue
+				}
+			}
+			out = append(out, in)
+		}
+		return out, last, kind, true
+	}
+	for iter := 0; iter < 3; iter++ {
+		for _, h := range funcs[1:] {
+			if established[h] {
+				continue
+			}
+			rets, last, kind, ok := accepting(h)
+			if !ok {
+				continue
+			}
+			cut := edgeSet{}
+			cut.addAll(nk)
+			tset := map[ssa.Instruction]bool{}
+			for _, r := range rets {
+				tset[r] = true
+			}
+			hasGate := false
+			for _, g := range deepFuncs(h) {
+				for _, e := range nk {
+					if e.from.Parent() == g {
+						hasGate = true
+					}
+				}
+				allInstrs(g, func(in ssa.Instruction) {
+					if v, ok := in.(ssa.Value); ok {
+						if _, isG := isGateCmp(v); isG {
+							hasGate = true
+						}
+					}
+				})
+			}
+			if !hasGate || deepReach(h, cut, func(in ssa.Instruction) bool { return tset[in] }) != nil {
+				continue
+			}
+			established[h] = true
+			for _, g := range funcs {
+				for _, ci := range calls(g, func(string) bool { return true }) {
+					if call, isC := ci.(*ssa.Call); isC && call.Call.StaticCallee() == h {
+						y, _ := successEdges(call, last, kind)
+						nk = append(nk, y...)
+					}
+				}
+			}
+		}
+	}
+	okRets, _, _, _ := accepting(f)
+	c.mustCrossDeep("C30.newkeys-gate", "enterKeyExchange success return", f, okRets, nk, "the peer's next packet == NEWKEYS")
+	c.mustCrossDeep("C30.newkeys-gate", "setInitialKEXDone after peer NEWKEYS", f, setDone, nk, "the peer's next packet == NEWKEYS")
+	// only in the first exchange
+	d := c30DeepSolve(f, func(e *penv, g *ssa.Function) {
+		e.bindField(g, "handshakeTransport", "sessionID", 1)
+	})
+	at := deepReach(f, d.cut, isSetDone)
+	c.check(at == nil, "C30.newkeys-gate", "setInitialKEXDone only in the first exchange", setDone[0], "unreachable when sessionID != nil", "setInitialKEXDone is reachable during a re-key")
+}
+
+// c30OwnMarker: our KEXINIT carries exactly our role's kex-strict marker while
+// sessionID == nil, and none on a re-key.
+func c30OwnMarker(c *Ctx) {
+	f := c.fn("ssh", "(*handshakeTransport).sendKexInit")
+	if f == nil {
+		return
+	}
+	const cons = "(*handshakeTransport).sendKexInit"
+	// the places where a marker string is put into a list: a store of a value
+	// that can be a kex-strict constant into an element of an array/slice (the
+	// varargs array of append, a composite literal, an indexed assignment)
+	var sites []*ssa.Store
+	deepInstrs(f, func(in ssa.Instruction) {
+		if st, ok := in.(*ssa.Store); ok {
+			if _, isElem := st.Addr.(*ssa.IndexAddr); isElem && c30MayBeMarker(st.Val, "kex-strict-", map[ssa.Value]bool{}) {
+				sites = append(sites, st)
+			}
+		}
+	})
+	if len(sites) == 0 {
+		c.fail("C30.own-marker", cons, f, "no place found where a kex-strict marker is put into the algorithm list (in the function or its helpers)")
+		return
+	}
+	bad := ""
+	for first := int64(0); first < 2; first++ {
+		for server := int64(0); server < 2; server++ {
+			d := c30DeepSolve(f, func(e *penv, g *ssa.Function) {
+				e.bindField(g, "handshakeTransport", "sessionID", 1-first)
+				e.bindField(g, "handshakeTransport", "sentInitMsg", 0)
+				c30BindLenField(e, g, "handshakeTransport", "hostKeys", server)
+			})
+			got := map[string]bool{}
+			for _, st := range sites {
+				if deepReach(f, d.cut, func(in ssa.Instruction) bool { return in == ssa.Instruction(st) }) != nil {
+					d.c30Strings(st.Val, 0, got)
+				}
+			}
+			var gs []string
+			for s := range got {
+				gs = append(gs, s)
+			}
+			sort.Strings(gs)
+			role := "client"
+			wantSub := "kex-strict-c"
+			if server == 1 {
+				role, wantSub = "server", "kex-strict-s"
+			}
+			switch {
+			case first == 0 && len(gs) > 0:
+				bad = fmt.Sprintf("re-key (sessionID != nil) as %s: a strict-KEX marker can be added to our KEXINIT: %v", role, gs)
+			case first == 1 && !(len(gs) == 1 && strings.HasPrefix(gs[0], wantSub)):
+				bad = fmt.Sprintf("first exchange as %s: markers added to our KEXINIT: %v, specification exactly %s-*", role, gs, wantSub)
+			}
+		}
+	}
+	c.check(bad == "", "C30.own-marker", cons, sites[0], "our KEXINIT carries exactly our role's kex-strict marker while sessionID == nil and none on a re-key", bad)
+}
+
+// ---- (c) no skipping ------------------------------------------------------
+
+func c30SkipTransport(c *Ctx, k c30Consts) {
+	f := c.fn("ssh", "(*transport).readPacket")
+	inner := c.fn("ssh", "(*connectionState).readPacket")
+	if f == nil || inner == nil || len(f.Params) == 0 {
+		return
+	}
+	const rule = "C30.skip-transport"
+	const cons = "(*transport).readPacket"
+	recv := f.Params[0].Name()
+	bad := ""
+	n := 0
+	for _, ln := range []int64{0, 1} {
+		for strict := int64(0); strict < 2; strict++ {
+			for done := int64(0); done < 2; done++ {
+				for _, p0 := range []int64{k.ignore, k.debug, k.newKeys, 1, 3, 5, 90} {
+					tr := newC30Trace()
+					w := c30Walker(f, tr, map[string]bool{inner.Name(): true}, nil)
+					w.state[recv+".strictMode"] = strict
+					w.state[recv+".initialKEXDone"] = done
+					reads := 0
+					types := map[*ssa.Call]int64{}
+					w.onCall = func(w *pathWalker, ci ssa.CallInstruction) string {
+						call, ok := ci.(*ssa.Call)
+						if !ok || call.Call.StaticCallee() != inner {
+							return ""
+						}
+						reads++
+						// the packet under test first, then a packet nobody skips
+						if reads == 1 {
+							w.tuple[call] = []optInt{{ln, true}, {0, true}}
+							types[call] = p0
+						} else {
+							w.tuple[call] = []optInt{{1, true}, {0, true}}
+							types[call] = 90
+						}
+						return "read"
+					}
+					w.onExtract = func(w *pathWalker, ex *ssa.Extract) {
+						if call, ok := ex.Tuple.(*ssa.Call); ok && ex.Index == 0 {
+							if t, ok := types[call]; ok {
+								w.off[ex] = t
+							}
+						}
+					}
+					end := w.walk(f.Blocks[0], nil)
+					n++
+					seen := 0
+					for _, ev := range c30Events(w) {
+						if ev == "read" {
+							seen++
+						}
+					}
+					want := ln > 0 && !(strict == 1 && done == 0) && (p0 == k.ignore || p0 == k.debug)
+					desc := fmt.Sprintf("len=%d strict=%d initialKEXDone=%d type=%d", ln, strict, done, p0)
+					switch {
+					case end != "return":
+						bad = desc + ": evaluation ended " + end + " (" + w.why + ")"
+					case seen != reads || reads < 1 || reads > 2:
+						bad = fmt.Sprintf("%s: %d packets read, evaluation inconsistent", desc, reads)
+					case w.oob:
+						bad = desc + ": the packet is indexed out of range"
+					case (reads == 2) != want:
+						bad = fmt.Sprintf("%s: packet skipped=%v, specification %v", desc, reads == 2, want)
+					}
+				}
+			}
+		}
+	}
+	c.check(bad == "", rule, cons, f, fmt.Sprintf("IGNORE/DEBUG skipping matches the specification on %d interpreted cases", n), bad)
+}
+
+func c30SkipReadLoop(c *Ctx, k c30Consts) {
+	f := c.fn("ssh", "(*handshakeTransport).readLoop")
+	one := c.fn("ssh", "(*handshakeTransport).readOnePacket")
+	if f == nil || one == nil {
+		return
+	}
+	const rule = "C30.skip-readloop"
+	const cons = "(*handshakeTransport).readLoop"
+	var call *ssa.Call
+	for _, ci := range deepCalls(f, func(string) bool { return true }) {
+		if cc, ok := ci.(*ssa.Call); ok && cc.Call.StaticCallee() == one && call == nil {
+			call = cc
+		}
+	}
+	isSend := func(in ssa.Instruction) bool {
+		s, ok := in.(*ssa.Send)
+		return ok && isField(s.Chan, "handshakeTransport", "incoming")
+	}
+	nSend := 0
+	deepInstrs(f, func(in ssa.Instruction) {
+		if isSend(in) {
+			nSend++
+		}
+	})
+	var site ssa.Instruction
+	if call != nil {
+		site = c30RootSite(f, call)
+	}
+	if call == nil || nSend == 0 || site == nil {
+		c.fail(rule, cons, f, "readOnePacket call or delivery send on the incoming channel not found (in the function or its helpers)")
+		return
+	}
+	funcs := deepFuncs(f)
+	pkt := c30Flow(funcs, resultN(call, 0))
+	errs := errResult(call)
+	back := backEdges(f)
+	bad := ""
+	n := 0
+	for first := int64(0); first < 2; first++ {
+		for strict := int64(0); strict < 2; strict++ {
+			for _, p0 := range []int64{k.ignore, k.debug, k.newKeys, 1, 3, 5, 90} {
+				d := c30DeepSolve(f, func(e *penv, g *ssa.Function) {
+					e.bindField(g, "handshakeTransport", "strictMode", strict)
+					e.bindField(g, "handshakeTransport", "sessionID", 1-first)
+					c30BindPacket(e, g, pkt, 1, p0)
+					for _, ev := range errs {
+						e.bind(ev, 0)
+					}
+				})
+				cut := edgeSet{}
+				for e := range d.cut {
+					cut[e] = true
+				}
+				for e := range back {
+					cut[e] = true
+				}
+				delivered := deepReachFrom(f, site.Block(), cut, isSend) != nil
+				want := (first == 1 && strict == 1) || !(p0 == k.ignore || p0 == k.debug)
+				n++
+				if delivered != want {
+					bad = fmt.Sprintf("first-kex=%d strict=%d type=%d: delivered to the kex/application=%v, specification %v", first, strict, p0, delivered, want)
+				}
+			}
+		}
+	}
+	c.check(bad == "", rule, cons, call, fmt.Sprintf("IGNORE/DEBUG dropping matches the specification on %d cases", n), bad)
+}
+
+// ---- (d) first packet must be KEXINIT -------------------------------------
+
+func c30FirstPacket(c *Ctx, k c30Consts) {
+	f := c.fn("ssh", "(*handshakeTransport).readOnePacket")
+	if f == nil {
+		return
+	}
+	const rule = "C30.first-packet"
+	const cons = "(*handshakeTransport).readOnePacket"
+	var call *ssa.Call
+	for _, ci := range deepCalls(f, func(n string) bool { return strings.HasSuffix(n, ".readPacket") }) {
+		if cc, ok := ci.(*ssa.Call); ok && call == nil {
+			call = cc
+		}
+	}
+	first := c30BoolParam(f)
+	if call == nil || first == nil {
+		c.fail(rule, cons, f, "anchors not found: the read of the next packet / the single bool parameter saying that this is the first packet")
+		return
+	}
+	funcs := deepFuncs(f)
+	pkt := c30Flow(funcs, resultN(call, 0))
+	errs := errResult(call)
+	accept := map[ssa.Instruction]bool{}
+	for _, r := range acceptReturns(f, f.Signature.Results().Len()-1) {
+		accept[r] = true
+	}
+	bad := ""
+	for _, p0 := range []int64{k.ignore, k.debug, k.newKeys, 1, 5, 50, k.kexInit} {
+		d := c30DeepSolve(f, func(e *penv, g *ssa.Function) {
+			if g == f {
+				e.bind(first, 1)
+			}
+			c30BindPacket(e, g, pkt, 1, p0)
+			for _, ev := range errs {
+				e.bind(ev, 0)
+			}
+		})
+		okRet := deepReach(f, d.cut, func(in ssa.Instruction) bool { return accept[in] }) != nil
+		if okRet != (p0 == k.kexInit) {
+			bad = fmt.Sprintf("first packet of type %d: non-error return reachable=%v", p0, okRet)
+		}
+	}
+	if len(accept) == 0 {
+		bad = "no non-error return found"
+	}
+	c.check(bad == "", rule, cons, call, "the first packet is accepted only if it is KEXINIT", bad)
 }
